@@ -322,7 +322,9 @@ class World:
                     if al and al["inj"] == started:
                         # this injector's 24-hour timer fires just before its k-th mutating call (qmail-queue's own SIGALRM handler runs)
                         # (or, "after": right after that call has been performed, before the injector sees its result)
-                        env_i["VSHIM_SIGNAL"] = "inj%d:%d:14%s" % (started, al["k"], ":after" if al.get("after") else "")
+                        # "sig": 15 = the injector is killed by SIGTERM at that instant instead (catchable: whatever a handler tidies up, a
+                        # message that is already visible must stay whole)
+                        env_i["VSHIM_SIGNAL"] = "inj%d:%d:%d%s" % (started, al["k"], al.get("sig", 14), ":after" if al.get("after") else "")
                         out["classes"].add("injector_alarm")
                     pre = None
                     if al and al["inj"] == started and al.get("blocked"):
@@ -468,9 +470,9 @@ class World:
             except subprocess.TimeoutExpired:
                 return None
             inj_fault = bool(sc.get("fault")) and sc["fault"]["key"].startswith("inj")       # an injector with a failing call reports it
-            if rc != 0 and not crashed and not inj_fault and not any(m.get("bad_env") for m in sc["messages"]) and not (sc.get("alarm") and rc == 52):
+            if rc != 0 and not crashed and not inj_fault and not any(m.get("bad_env") for m in sc["messages"]) and not (sc.get("alarm") and (rc == 52 or sc["alarm"].get("sig", 14) != 14)):
                 return "injector exited %r" % rc
-        if sc.get("alarm") and not crashed and not sc.get("fault") and sc["alarm"]["inj"] < len(inj):
+        if sc.get("alarm") and sc["alarm"].get("sig", 14) == 14 and not crashed and not sc.get("fault") and sc["alarm"]["inj"] < len(inj):
             # the death timer of an injector expired (the interposer raised SIGALRM in it): it is documented to stop there and then (exit 52),
             # whatever signal mask it was started with - the collection of S2/S3 leftovers after 36 hours relies on it
             rc = inj[sc["alarm"]["inj"]].returncode
@@ -532,6 +534,8 @@ def scenario(draw):
             sc["alarm"]["blocked"] = True
         if draw(st.integers(0, 2)) == 0:
             sc["alarm"]["after"] = True
+        if draw(st.integers(0, 3)) == 0:
+            sc["alarm"]["sig"] = 15
     if not sc.get("crash") and draw(st.integers(0, 4)) == 0:
         sc["fault"] = {"key": draw(st.sampled_from(["send.qmail-send", "send.qmail-send", "clean.qmail-clean", "inj0", "inj1"])),
                        "cls": draw(st.sampled_from(["unlink", "unlink", "unlink", "link", "open", "write", "fsync", "stat", "read"])),
@@ -639,6 +643,9 @@ def crash_sweep_scenarios():
             if not tape:
                 # ... and at the instant each of those calls has been performed, before the injector sees its result (added after seeded change C01-K)
                 out.append(dict(base, tape=[], alarm={"inj": 0, "k": k, "after": True}))
+                # "killed at any instant" by a catchable signal (added after seeded change C02-M)
+                out.append(dict(base, tape=[], alarm={"inj": 0, "k": k, "sig": 15}))
+                out.append(dict(base, tape=[], alarm={"inj": 0, "k": k, "sig": 15, "after": True}))
     # one failing unlink()/link() at every position in the daemon and the cleaner (added after seeded change C02-C: the removal order must
     # also survive an I/O error on the step before)
     for key, cls, n in (("send.qmail-send", "unlink", 12), ("clean.qmail-clean", "unlink", 6), ("send.qmail-send", "stat", 10), ("send.qmail-send", "open", 12),
